@@ -68,6 +68,10 @@ TEMPLATES = [
     "import logging.config\ndef f(x: {A}) -> None:\n    logging.config.dictConfig(x)\n    logging.config.dictConfig({{'version': 1, 'root': {LA}}})\n",
     "def f(x: Union[{A}, {B}, None], y: object) -> None:\n    if isinstance(x, ({A}, {B}, bytes, float)):\n        reveal_type(x)\n    if isinstance(y, ({A}, {B}, bool)) and y in ({LA}, {LB}, {LC}):\n        reveal_type(y)\n    if type(y) in {{int, str, bytes}}:\n        reveal_type(y)\n",
     "class Q1:\n    qa: int = 1\nclass Q2(Q1):\n    qb: str = ''\nclass Q3(Q2, Generic[T]):\n    def m(self, t: T) -> None:\n        print(self.qa, self.qb, self.qc, self.qd)\n        self.qe = t\ndef f(q: Q3[{A}], r: float, i: int) -> None:\n    q.m({LB})\n    reveal_type(q.qe)\n    r = i\n    i = r\n    cpx: complex = i\n    use(i)\n    use(r)\ndef use(p: P3) -> None: ...\n",
+    "def takes(**kwargs: str) -> None: ...\ndef takes2(a: int = 0, **kwargs: {B}) -> None: ...\ndef f(key: Literal['alpha', 'beta', 'gamma', 'delta'], k2: Literal['a', 'bb', {LB}]) -> None:\n    takes(**{{key: 1}})\n    takes2(**{{key: {LA}, k2: None}})\n    takes2(**{{k2: 1.5}}, **{{key: b''}})\n",
+    # a pair for the history search: the first discards the results of standard-library calls in expression statements, the second checks the same results against typeshed-only bases
+    "import io, subprocess\ndef f(path: str) -> None:\n    open(path, 'w')\n    open(path, 'rb')\n    io.StringIO()\n    iter([{LA}])\n    path.encode()\n    subprocess.Popen(path)\n    sorted([{LA}, {LB}])\n",
+    "import io, subprocess\ndef tt(f: TextIO) -> None: ...\ndef tb(f: BinaryIO) -> None: ...\ndef ti(f: IO[str]) -> None: ...\ndef it(f: Iterator[{A}]) -> None: ...\ndef cm(f: ContextManager[Any]) -> None: ...\ndef f(path: str) -> None:\n    tt(open(path, 'w'))\n    tb(open(path, 'rb'))\n    ti(io.StringIO())\n    it(iter([{LA}]))\n    cm(subprocess.Popen(path))\n    cm(open(path))\n    tt(open(path, 'rb'))\n",
     # --- order-sensitive programs: the result order is derived from a set / a cache inside pyanalyze rather than from the declared union
     "def f(x: object, y: object) -> None:\n    if isinstance(x, {A}) or isinstance(x, {B}) or x is None:\n        reveal_type(x)\n    if isinstance(y, {B}) or y == {LA} or isinstance(y, {A}):\n        reveal_type(y)\n    if not (isinstance(x, {A}) and isinstance(y, {A})):\n        reveal_type(x)\n",
     "def f() -> None:\n    try:\n        v = {LA}\n        v = {LB}\n        v = 2.0\n        w = {LC}\n        w = None\n    except Exception:\n        pass\n    reveal_type(v)\n    reveal_type(w)\n    with open('x') as fh:\n        u = {LA}\n        u = {LB}\n        u = b''\n    reveal_type(u)\n",
@@ -105,7 +109,7 @@ def corpus(tier):
 def bounds(tier):
     _install()
     return {"corpus": len(corpus(tier)), "schedule_deviations": "1 site" if tier == "quick" else "1 occurrence, 2 sites", "history_depth": 2 if tier == "quick" else 3,
-            "history_alphabet": 12 if tier == "quick" else 16, "seeds": 8 if tier == "quick" else 32,
+            "history_alphabet": 14 if tier == "quick" else 18, "seeds": 8 if tier == "quick" else 32,
             "harvested_programs": len(__import__("props.c10_harvest", fromlist=["x"]).hcorpus()), "harvested_schedules": "1 site (rev)" if tier == "quick" else "1 site (rev, rot1, swap01)",
             "harvested_seeds": 6 if tier == "quick" else 24, "harvested_histories": "corpus in order, in reverse order" + ("" if tier == "quick" else ", every program first and then the corpus in order")}
 
@@ -113,7 +117,7 @@ def bounds(tier):
 def units(tier):
     n = len(corpus(tier))
     u = [("sched", tier, i) for i in range(n)]
-    k = 12 if tier == "quick" else 16
+    k = 14 if tier == "quick" else 18
     u += [("hist", tier, i) for i in range(k)]
     u += [("seeds", tier, 0), ("typing", tier, 0)]
     # second corpus: the programs of pyanalyze's own test-suite (props/c10_harvest.py)
@@ -257,7 +261,7 @@ def _in_child(fn):
 
 
 # history alphabet as (template, variant): colliding pairs first (same template in two variants; the swapped variant spells the same unions in the other order)
-HIST_ALPHA = [pidx(-1, 0), pidx(-1, "s"), pidx(8, 0), pidx(8, 1), pidx(0, 0), pidx(0, "s"), pidx(16, 0), pidx(16, 1), pidx(5, 0), pidx(5, "s"), pidx(-3, 0), pidx(-3, "s"),
+HIST_ALPHA = [pidx(-5, 0), pidx(-4, 0), pidx(-1, 0), pidx(-1, "s"), pidx(8, 0), pidx(8, 1), pidx(0, 0), pidx(0, "s"), pidx(16, 0), pidx(16, 1), pidx(5, 0), pidx(5, "s"), pidx(-3, 0), pidx(-3, "s"),
               pidx(4, 0), pidx(4, 1), pidx(12, 0), pidx(12, 1)]
 
 
@@ -265,7 +269,7 @@ def _hist(res, tier, first, only=None):
     _install()
     import pa.run      # import pyanalyze in the parent; no check is run here
     progs = corpus(tier)
-    k = 12 if tier == "quick" else 16
+    k = 14 if tier == "quick" else 18
     alpha = [a for a in HIST_ALPHA[:k] if a < len(progs)]
     depth = 2 if tier == "quick" else 3
 
@@ -401,7 +405,7 @@ HH_STEP = 12
 def run_unit(unit):
     kind, tier, i = unit
     res = UnitResult()
-    if kind.startswith("h"):
+    if kind in ("hsched", "hseeds", "hhist"):
         from props import c10_harvest as hv
         if kind == "hsched":
             hv.hsched(res, tier, i, i + HS_STEP, _install())
@@ -425,7 +429,7 @@ def run_unit(unit):
 def replay(case):
     res = UnitResult()
     tier = "thorough"
-    if case["mode"].startswith("h"):
+    if case["mode"] in ("hsched", "hseeds", "hhist"):
         from props import c10_harvest as hv
         if case["mode"] == "hsched":
             hv.hsched(res, tier, case["prog"], case["prog"] + 1, _install(), only=(case["prog"], case.get("policy")))
